@@ -22,7 +22,7 @@
 (***************************************************************************)
 EXTENDS PoolOps
 
-CONSTANTS Dialogs, Backs, MethodExcluded, PurgeEvictsLive, ExpiresIgnored
+CONSTANTS Dialogs, Backs, MethodExcluded, PurgeEvictsLive, ExpiresIgnored, RejectUnpins
 
 Methods == {"ACK", "BYE", "INVITE", "UPDATE", "INFO", "NOTIFY", "SUBSCRIBE"}
 
@@ -74,6 +74,16 @@ Answer(d, lg) ==
              /\ last' = NoDispatch
              /\ UNCHANGED <<idx, inv>>
 
+\* the backend REJECTS an INVITE of an established dialog (a re-INVITE answered 488 / 491 / 603 ... with both tags):
+\* the dialog lives on (RFC 3261 14.1) and the response, coming from the backend, binds it like any other - with the
+\* lifetime of a response without Expires.  RejectUnpins = TRUE models a proxy that releases the pin on such a response.
+Rejected(d) ==
+             /\ d \in DOMAIN inv /\ d \in DOMAIN answered
+             /\ pins' = (IF RejectUnpins THEN Drop(pins, d) ELSE AfterPurge(Put(pins, d, inv[d]), d)) /\ due' = FALSE
+             /\ long' = long \ {d}
+             /\ last' = NoDispatch
+             /\ UNCHANGED <<idx, inv, answered>>
+
 \* a SUBSCRIBE issued by backend b is answered from outside: the response passes towards b
 SubscribeAnswered(d, b, lg) ==
                            /\ d \notin DOMAIN answered /\ d \notin DOMAIN inv
@@ -116,7 +126,7 @@ ByeAnswered(d) == /\ d \in DOMAIN inv
                   /\ long' = long \ {d}
                   /\ UNCHANGED <<idx, inv, due>>
 
-Next == \/ \E d \in Dialogs : Initial(d) \/ ByeAnswered(d) \/ NotifyTerminated(d)
+Next == \/ \E d \in Dialogs : Initial(d) \/ ByeAnswered(d) \/ NotifyTerminated(d) \/ Rejected(d)
         \/ \E d \in Dialogs, lg \in BOOLEAN : Answer(d, lg)
         \/ \E d \in Dialogs, m \in Methods : InDialog(d, m)
         \/ \E d \in Dialogs, b \in Backs, lg \in BOOLEAN : SubscribeAnswered(d, b, lg)
